@@ -24,6 +24,12 @@ def budget(tier):
     return (1500, 16) if tier == "quick" else (25000, 16)
 
 
+def spell(draw, g):
+    """the spellings of the command name: g global / v vglobal g! global!"""
+    g["sp"] = draw(st.sampled_from(["g", "g", "global"] if g["c"] == "g" else ["v", "g!", "g!", "global!", "vglobal"]))
+    return g
+
+
 @st.composite
 def sub_cmd(draw, depth=0):
     k = draw(st.integers(0, 11))
@@ -40,7 +46,7 @@ def sub_cmd(draw, depth=0):
     if k == 8:
         return {"c": "y", "a": a, "r": "b"}
     if k == 9 and depth == 0:
-        return {"c": draw(st.sampled_from(["g", "v"])), "a": [], "pat": draw(exgen.simple_pat()), "cmds": [draw(sub_cmd(1))]}
+        return spell(draw, {"c": draw(st.sampled_from(["g", "v"])), "a": [], "pat": draw(exgen.simple_pat()), "cmds": [draw(sub_cmd(1))]})
     return {"c": "d", "a": a}
 
 
@@ -64,7 +70,7 @@ def case(draw):
         cmds = cmds[-1:]
     if cmds[0]["c"] in ("g", "v"):
         cmds = cmds[:1]            # a nested global takes the rest of the line as its own command list
-    return {"lines": lines, "g": {"c": draw(st.sampled_from(["g", "g", "v"])), "a": a, "pat": draw(exgen.simple_pat()), "cmds": cmds},
+    return {"lines": lines, "g": spell(draw, {"c": draw(st.sampled_from(["g", "g", "v"])), "a": a, "pat": draw(exgen.simple_pat()), "cmds": cmds}),
             "blk": draw(st.sampled_from([["T1"], ["T1", "T2"], [], ["T foo"]])),
             # an earlier global that is rejected (pattern does not compile / range does not resolve) must leave no state behind
             "prior": draw(st.sampled_from(["", "", "g/[a/d\n", "99g/x/d\n", "g/(/d\n", "v/[[:alpha:/d\n"]))}
